@@ -524,6 +524,14 @@ def record_newdata(idx, text, used, w, dm, rng):
     w2.names, w2.scale, w2.sum_cols, w2.namespace = w.names, w.scale, w.sum_cols, w.namespace
     w2.cols = {k: dict(c, v=[c["v"][i] for i in perm]) for k, c in w.cols.items()}
     w2.df = w.df.iloc[perm].reset_index(drop=True) if rng.random() < 0.5 else w.df.iloc[perm]
+    # a factor of the new frame may come with a dtype of its own: an ordered categorical built from these rows
+    w2.df = w2.df.copy()
+    for col in ("f", "g", "h"):
+        if rng.random() < 0.25:
+            vals = [str(v) for v in w2.df[col]]
+            cats = sorted(set(vals))
+            rng.shuffle(cats)
+            w2.df[col] = pd.Categorical(vals, categories=cats, ordered=True)
     ev = {"id": idx, "kind": "build", "frame": {"n": w2.n, "cols": w2.cols}, "used": used, "policy": "drop", "status": "ok",
           "common": dict(EMPTY), "group": dict(EMPTY), "resp": dict(EMPTY), "views": True, "resp_expected": False, "tag": "new_data"}
     try:
